@@ -370,7 +370,16 @@ func verifC16_ResubscribePersist() {
 	s.subscribe([]string{"t/1"}, []byte{q1})
 	verifQuiesce()
 	verifAssert(vStore.kv[sessionStoreKey("c")] == "t/1="+[]string{"0", "1"}[q1]+";", "subscription-persisted")
-	switch verifChoose("secondStep", 3) {
+	switch verifChoose("secondStep", 4) {
+	case 3: // the session is resumed from storage (a reconnect with cleanSession=false), then changes
+		stored := vStore.kv[sessionStoreKey("c")]
+		vDB[stored] = &SessionInfo{EGName: s.info.EGName, Name: s.info.Name, ClientID: "c", Topics: map[string]int{"t/1": int(q1)}}
+		s2 := sm.newSessionFromYaml(&stored)
+		verifAssert(s2 != nil, "session-restored-from-storage")
+		s2.subscribe([]string{"t/2"}, []byte{1})
+		verifQuiesce()
+		verifAssert(vStore.kv[sessionStoreKey("c")] == "t/1="+[]string{"0", "1"}[q1]+";t/2=1;", "change-of-a-resumed-session-persisted")
+		verifCover("resumed-session-changed")
 	case 0: // the same filter again with the other QoS
 		s.subscribe([]string{"t/1"}, []byte{1 - q1})
 		verifQuiesce()
